@@ -69,15 +69,18 @@ Definition printable (x:byte) : bool := (32 <=? bN x)%N && (bN x <? 127)%N.
 Lemma esc_printable q c : (q = q1 \/ q = q2) -> forallb printable (esc q c) = true.
 Proof. intros [-> | ->]; destruct c; vm_compute; reflexivity. Qed.
 
+Lemma flat_esc_printable q b : (q = q1 \/ q = q2) -> forallb printable (flat_map (esc q) b) = true.
+Proof.
+  intro Q. induction b as [|c r IH]; [reflexivity|].
+  cbn [flat_map]. rewrite forallb_app, (esc_printable q c Q). exact IH.
+Qed.
+
 Theorem pyrepr_printable : forall b, forallb printable (pyrepr b) = true.
 Proof.
   intro b. unfold pyrepr. cbv zeta.
   assert (Q : quote_of b = q1 \/ quote_of b = q2) by (destruct (quote_of_cases b) as [H|[H _]]; auto).
   assert (PQ : printable (quote_of b) = true) by (destruct Q as [-> | ->]; reflexivity).
-  rewrite !forallb_app. cbn [forallb]. rewrite PQ. change (printable x62) with true. cbn [andb].
-  rewrite andb_true_r.
-  induction b as [|c r IH]; [reflexivity|]. cbn [flat_map]. rewrite forallb_app, (esc_printable _ c Q).
-  clear IH. induction r as [|c' r IH]; [reflexivity|]. cbn [flat_map]. rewrite forallb_app, (esc_printable _ c' Q). exact IH.
+  rewrite !forallb_app, (flat_esc_printable _ b Q). cbn [forallb]. rewrite PQ. reflexivity.
 Qed.
 
 Corollary pyrepr_printable_spec : forall b x, In x (pyrepr b) -> (32 <= bN x < 127)%N.
@@ -88,15 +91,18 @@ Proof.
 Qed.
 
 (* ---- the message repr ---- *)
+Lemma byte_eqb_refl a : Byte.eqb a a = true.
+Proof. apply Byte.byte_dec_lb. reflexivity. Qed.
+
 Lemma strip_prefix_app pre s : strip_prefix pre (pre ++ s) = Some s.
 Proof.
   induction pre as [|a pre IH]; [destruct s; reflexivity|].
-  cbn [app strip_prefix]. rewrite (Byte.byte_dec_lb a a eq_refl). exact IH.
+  cbn [app strip_prefix]. rewrite byte_eqb_refl. exact IH.
 Qed.
 
 Lemma strip_last_app c s : strip_last c (s ++ [c]) = Some s.
 Proof.
-  unfold strip_last. rewrite rev_unit. rewrite (Byte.byte_dec_lb c c eq_refl). rewrite rev_involutive. reflexivity.
+  unfold strip_last. rewrite rev_unit. rewrite byte_eqb_refl. rewrite rev_involutive. reflexivity.
 Qed.
 
 Theorem message_repr_roundtrip : forall p, message_repr_payload (message_repr p) = Some p.
